@@ -28,6 +28,8 @@ NS = {
     "off": off,
     "UTC": UTC,
     "Z": ZoneInfo,
+    "date": _d.date,
+    "time": _d.time,
     "PWP": pathlib.PureWindowsPath,
     "PPP": pathlib.PurePosixPath,
     "nan": float("nan"),
